@@ -386,3 +386,26 @@ func dumpKV(k kv.KV) ([]rawKV, error) {
 }
 
 var _ = io.EOF
+
+
+// ReadAllEntries reads every synced entry of the WAL.
+func (w *hookWal) ReadAllEntries() ([]*proto.LogEntry, error) {
+	first := w.FirstOffset()
+	if first < 0 {
+		return nil, nil
+	}
+	rd, err := w.NewReader(first - 1)
+	if err != nil {
+		return nil, err
+	}
+	defer rd.Close()
+	var out []*proto.LogEntry
+	for rd.HasNext() {
+		e, err := rd.ReadNext()
+		if err != nil {
+			return out, err
+		}
+		out = append(out, e)
+	}
+	return out, nil
+}
